@@ -19,13 +19,16 @@ Section Mon.
 End Mon.
 
 (* ------------------------------------------------------------------ SingleFlight
-   events: KInv a=key | KBegin a=key (fn starts) | KEnd a=key b=value (fn returns value)
-           | KRet a=key b=value c=1 if the call reports that it executed itself (DoEx's fresh), else 0.
+   events: KInv a=key | KBegin a=key (fn starts) | KEnd a=key b=value c=1 if fn panicked (else it
+           returned value) | KRet a=key b=value c=1 if the call executed itself (DoEx's fresh) and
+           returned, c=2 if it executed itself and ended with fn's panic, c=0 if it shared.
    Contract: a call that returns fresh executed fn exactly once itself and returns that value;
    a call that returns shared did not execute fn, and returns the value of ONE finished
    execution of the same key by another call which had not yet returned when this call was invoked
    (the two calls overlap in time; in particular a call invoked after the executing call returned
-   can never receive its result: it executes afresh or joins a later flight). *)
+   can never receive its result: it executes afresh or joins a later flight).
+   A panicking fn is an execution like any other: its flight's value is nil (0), its sharers return
+   nil, its caller sees the panic, and after the caller is gone nobody can share it any more. *)
 Record sf_cur := mkcur { cu_key : nat; cu_inv : nat; cu_ex : nat (* 0 none, 1 running, 2 done *); cu_val : nat }.
 Record sf_exec := mkexec { x_val : nat; x_key : nat; x_t : nat; x_ret : option nat }.
 Record sf_mon := mksfm { m_now : nat; m_cur : nat -> option sf_cur; m_exs : list sf_exec }.
@@ -42,6 +45,10 @@ Definition sf_share_ok (t k v inv : nat) (x : sf_exec) : bool :=
   Nat.eqb (x_val x) v && Nat.eqb (x_key x) k && negb (Nat.eqb (x_t x) t) &&
   match x_ret x with None => true | Some r => Nat.ltb inv r end.
 
+(* execution state after fn ended: 2 = returned, 3 = panicked (flag c of the KEnd event) *)
+Definition end_ex (flag : nat) : nat := if Nat.eqb flag 1 then 3 else 2.
+Definition end_val (flag v : nat) : nat := if Nat.eqb flag 1 then 0 else v.
+
 Definition sf_mon_step (m : sf_mon) (e : ev) : option sf_mon :=
   let t := e_t e in
   let now := m_now m in
@@ -53,19 +60,21 @@ Definition sf_mon_step (m : sf_mon) (e : ev) : option sf_mon :=
       then Some (mksfm (S now) (upd (m_cur m) t (Some (mkcur (cu_key c) (cu_inv c) 1 0))) (m_exs m))
       else None
   | KEnd, Some c =>
+      (* c = 1: fn panicked; the flight's value stays nil (0) *)
       if Nat.eqb (cu_key c) (e_a e) && Nat.eqb (cu_ex c) 1
-      then Some (mksfm (S now) (upd (m_cur m) t (Some (mkcur (cu_key c) (cu_inv c) 2 (e_b e))))
-                       (mkexec (e_b e) (cu_key c) t None :: m_exs m))
+      then Some (mksfm (S now) (upd (m_cur m) t (Some (mkcur (cu_key c) (cu_inv c) (end_ex (e_c e)) (end_val (e_c e) (e_b e)))))
+                       (mkexec (end_val (e_c e) (e_b e)) (cu_key c) t None :: m_exs m))
       else None
   | KRet, Some c =>
       if Nat.eqb (cu_key c) (e_a e) then
-        if Nat.eqb (e_c e) 1 then
-          if Nat.eqb (cu_ex c) 2 && Nat.eqb (cu_val c) (e_b e)
-          then Some (mksfm (S now) (upd (m_cur m) t None) (map (sf_retire t now) (m_exs m)))
-          else None
-        else
+        if Nat.eqb (e_c e) 0 then
           if Nat.eqb (cu_ex c) 0 && existsb (sf_share_ok t (cu_key c) (e_b e) (cu_inv c)) (m_exs m)
           then Some (mksfm (S now) (upd (m_cur m) t None) (m_exs m))
+          else None
+        else
+          (* c = 1: executed and returned normally; c = 2: the call ended with fn's panic *)
+          if Nat.eqb (cu_ex c) (S (e_c e)) && Nat.eqb (cu_val c) (e_b e) && Nat.leb (e_c e) 2
+          then Some (mksfm (S now) (upd (m_cur m) t None) (map (sf_retire t now) (m_exs m)))
           else None
       else None
   | _, _ => None
@@ -74,8 +83,9 @@ Definition sf_mon_step (m : sf_mon) (e : ev) : option sf_mon :=
 Definition sf_accepts (h : list ev) : bool := accepts sf_mon_step sf_mon0 h.
 
 (* ------------------------------------------------------------------ LockedCalls
-   events as for SingleFlight (KRet c is unused).  Contract: executions of fn for the same key
-   never overlap; every call executes fn exactly once and returns what its own fn returned. *)
+   events as for SingleFlight (KRet c=1 returned, c=2 panicked).  Contract: executions of fn for
+   the same key never overlap; every call executes fn exactly once and returns what its own fn
+   returned, or ends with its panic. *)
 Record lc_mon := mklcm { l_cur : nat -> option sf_cur; l_running : list nat (* keys with fn running *) }.
 Definition lc_mon0 : lc_mon := mklcm (fun _ => None) [].
 
@@ -89,11 +99,13 @@ Definition lc_mon_step (m : lc_mon) (e : ev) : option lc_mon :=
       else None
   | KEnd, Some c =>
       if Nat.eqb (cu_key c) (e_a e) && Nat.eqb (cu_ex c) 1
-      then Some (mklcm (upd (l_cur m) t (Some (mkcur (cu_key c) 0 2 (e_b e))))
+      then Some (mklcm (upd (l_cur m) t (Some (mkcur (cu_key c) 0 (end_ex (e_c e)) (end_val (e_c e) (e_b e)))))
                        (filter (fun k => negb (Nat.eqb k (cu_key c))) (l_running m)))
       else None
   | KRet, Some c =>
-      if Nat.eqb (cu_key c) (e_a e) && Nat.eqb (cu_ex c) 2 && Nat.eqb (cu_val c) (e_b e)
+      (* c = 1: returned fn's result; c = 2: ended with fn's panic *)
+      if Nat.eqb (cu_key c) (e_a e) && Nat.eqb (cu_ex c) (S (e_c e)) && Nat.eqb (cu_val c) (e_b e) &&
+         Nat.leb 1 (e_c e) && Nat.leb (e_c e) 2
       then Some (mklcm (upd (l_cur m) t None) (l_running m))
       else None
   | _, _ => None
